@@ -9,9 +9,7 @@
      export_amp                      Edfa.to_json followed by the reload: gain_target 6 decimals, tilt_target 5 decimals,
                                      delta_p / out_voa / in_voa / type_variety as they are
      reload items outs               the exported amplifiers in the same span contexts
-     pm_ok s lib                     power mode; target_extended_gain >= 0; voa rounding minus margin never exceeds the
-                                     headroom (implied by round(voa_step,1) <= 2 voa_margin: C17_voa_margin_suffices);
-                                     no library entry named ""
+     pm_ok s lib                     power mode; target_extended_gain >= 0; no library entry named ""
      conn_fib / pad_run / export_fib add_connector_loss, add_fiber_padding on one span, Fiber.to_json + reload
      run_dsl c r                     the design_span_loss that add_fiber_padding caches for the amplifier design
 
@@ -20,7 +18,7 @@
      export (design (load x1)) = x1 for x1 = export (design x), fibres and amplifiers, power mode and gain mode.
    What is proved instead (each for all inputs):
      C17_redesign_fixpoint_partial  amplifier side, power mode, any OMS, given equal span contexts
-     C17_connectors_stable, C17_padding_stable, C17_export_idempotent, C17_span_loss_cache
+     C17_connectors_stable, C17_padding_stable, C17_export_idempotent, C17_span_loss_cache(_stable)
                                     fibre side element by element / span by span: these are what make the span
                                     contexts of the two rounds equal
    Missing: the composition over a whole line (that the spans of the reloaded line are the exported spans: needs
@@ -43,11 +41,6 @@ Theorem C17_n_rounds : forall s lib sel D ctxs ins j1 n, pm_ok s lib -> length c
   amp_round s lib sel D ctxs ins = Ok j1 -> amp_rounds s lib sel D ctxs n j1 = Ok j1.
 Proof. exact amp_rounds_fix. Qed.
 Print Assumptions C17_n_rounds.
-
-Theorem C17_voa_margin_suffices : forall step margin x,
-  (1 # 100 <= round_dec 1 step)%Q -> (round_dec 1 step <= 2 * margin)%Q -> (r2f x step - margin <= x)%Q.
-Proof. exact r2f_margin. Qed.
-Print Assumptions C17_voa_margin_suffices.
 
 (* design is a function: the same input designed twice gives the same output *)
 Theorem C17_design_deterministic : forall c l r1 r2 s lib sel D items o1 o2,
@@ -77,30 +70,19 @@ Theorem C17_export_idempotent : forall f, export_fib (export_fib f) = export_fib
 Proof. exact export_fib_idem. Qed.
 Print Assumptions C17_export_idempotent.
 
-(* the span loss handed to the amplifier design equals the loss of the padded span when the first fibre had no
-   att_in or no padding was needed ... *)
+(* the span loss handed to the amplifier design equals the loss of the padded span, and the redesign of the padded
+   span is handed the same value (gnpy fix 13a35c31 for finding F20; witness kept in corpus/C17/f20_att_in.json) *)
 Theorem C17_span_loss_cache : forall c r r', pad_run c r = Ok r' -> last_plain_fib r = true -> has_raman r = false ->
-  ((c_pad c <= run_loss r)%Q \/ match r with Fib g :: _ => (f_att g == 0)%Q | _ => True end) ->
   (run_dsl c r == run_loss r')%Q.
 Proof. exact run_dsl_spec. Qed.
 Print Assumptions C17_span_loss_cache.
-(* ... F20: and is too large by that att_in otherwise, so the first design and the redesign see different losses *)
-Theorem C17_redesign_att_in_refuted : exists c r r',
-  pad_run c r = Ok r' /\ last_plain_fib r = true /\ (run_dsl c r == c_pad c + 2)%Q /\ (run_dsl c r' == c_pad c)%Q.
-Proof. exact redesign_att_in_refuted. Qed.
-Print Assumptions C17_redesign_att_in_refuted.
+Theorem C17_span_loss_cache_stable : forall c r r', pad_run c r = Ok r' -> (run_dsl c r' == run_dsl c r)%Q.
+Proof. exact run_dsl_stable. Qed.
+Print Assumptions C17_span_loss_cache_stable.
 (* F19: Fiber.to_json does not export lumped_losses *)
 Theorem C17_export_drops_lumped : forall f, f_lumped (export_fib f) = [].
 Proof. exact export_drops_lumped. Qed.
 Print Assumptions C17_export_drops_lumped.
-(* F21: voa_margin below voa_step/2: the automatic VOA overshoots p_max and the redesign reduces the power *)
-Theorem C17_voa_margin_refuted : exists x a o D1 o' D1',
-  design_amp w_s w_lib (fun _ => "amp"%string) 0 x a = Ok (o, D1) /\
-  design_amp w_s w_lib (fun _ => "amp"%string) 0 x (export_amp o) = Ok (o', D1') /\
-  ~ (o_gain o' == o_gain o)%Q /\ i_dp (export_amp o') <> i_dp (export_amp o).
-Proof. exact redesign_voa_margin_refuted. Qed.
-Print Assumptions C17_voa_margin_refuted.
-
 (* SimParams: estimate_raman_gain leaves the shared parameters exactly as it found them, field by field, for every
    setting that set_params can produce *)
 Theorem C17_simparams_restored : forall dn dr st, set_params dn dr = Ok st ->
